@@ -120,18 +120,23 @@ Definition itan (i : interval) : option interval :=
     if ge u l then inew l u else inan.
 
 Definition iasin (i : interval) : option interval :=
+  if has_nan i then inan else
   if lt (lo i) (fl_neg_one _ F) || gt (hi i) (fl_one _ F) then inan
   else if feq (lo i) (hi i) then ifrom (fl_asin _ F (lo i))
   else inew (fl_asin _ F (lo i)) (fl_asin _ F (hi i)).
 
 Definition iacos (i : interval) : option interval :=
+  if has_nan i then inan else
   if lt (lo i) (fl_neg_one _ F) || gt (hi i) (fl_one _ F) then inan
   else if feq (lo i) (hi i) then ifrom (fl_acos _ F (lo i))
   else inew (fl_acos _ F (hi i)) (fl_acos _ F (lo i)).
 
-Definition iatan (i : interval) : option interval := inew (fl_atan _ F (lo i)) (fl_atan _ F (hi i)).
-Definition iexp (i : interval) : option interval := inew (fl_exp _ F (lo i)) (fl_exp _ F (hi i)).
+Definition iatan (i : interval) : option interval :=
+  if has_nan i then inan else inew (fl_atan _ F (lo i)) (fl_atan _ F (hi i)).
+Definition iexp (i : interval) : option interval :=
+  if has_nan i then inan else inew (fl_exp _ F (lo i)) (fl_exp _ F (hi i)).
 Definition iln (i : interval) : option interval :=
+  if has_nan i then inan else
   if le (lo i) (fl_zero _ F) then inan else inew (fl_ln _ F (lo i)) (fl_ln _ F (hi i)).
 Definition isqrt (i : interval) : option interval :=
   if lt (lo i) (fl_zero _ F) then inan else inew (fl_sqrt _ F (lo i)) (fl_sqrt _ F (hi i)).
@@ -214,8 +219,11 @@ Definition irand (a : interval) : option interval :=
   if has_nan a || negb (fl_bits_eq _ F (lo a) (hi a)) then inew (fl_zero _ F) (fl_one _ F)
   else ifrom (fl_rand _ F (lo a)).
 
-Definition iadd (a b : interval) := inew (fl_add _ F (lo a) (lo b)) (fl_add _ F (hi a) (hi b)).
-Definition isub (a b : interval) := inew (fl_sub _ F (lo a) (hi b)) (fl_sub _ F (hi a) (lo b)).
+(* a NaN in either bound of the result (inf - inf on one side only) gives the NaN interval *)
+Definition inew_nan (l u : T) : option interval :=
+  if isnan l || isnan u then inan else inew l u.
+Definition iadd (a b : interval) := inew_nan (fl_add _ F (lo a) (lo b)) (fl_add _ F (hi a) (hi b)).
+Definition isub (a b : interval) := inew_nan (fl_sub _ F (lo a) (hi b)) (fl_sub _ F (hi a) (lo b)).
 Definition ineg (a : interval) := inew (fl_neg _ F (hi a)) (fl_neg _ F (lo a)).
 
 Definition four_minmax (o0 o1 o2 o3 : T) : option interval :=
@@ -231,8 +239,8 @@ Definition imul (a b : interval) : option interval :=
 (* Mul<f32> for Interval *)
 Definition imul_f (a : interval) (r : T) : option interval :=
   if has_nan a || isnan r then inan
-  else if lt r (fl_zero _ F) then inew (fl_mul _ F (hi a) r) (fl_mul _ F (lo a) r)
-  else inew (fl_mul _ F (lo a) r) (fl_mul _ F (hi a) r).
+  else if lt r (fl_zero _ F) then inew_nan (fl_mul _ F (hi a) r) (fl_mul _ F (lo a) r)
+  else inew_nan (fl_mul _ F (lo a) r) (fl_mul _ F (hi a) r).
 
 Definition idiv (a b : interval) : option interval :=
   if has_nan a then inan else
